@@ -170,8 +170,21 @@ fn on_fields(fields: &Fields, has_self: bool, encoding: Encoding) -> syn::Result
     let steps = match encoding {
         Encoding::Map => {
             let mut steps = Vec::new();
-            let len = fields.fields().len();
-            steps.push(quote!(#len.cbor_len(__ctx777)));
+            // The map header is sized from the number of entries the encoder
+            // writes (nil values are omitted), not from the declared fields.
+            let present = fields.fields().map(|field| {
+                let is_nil = is_nil(&field.typ, field.attrs.codec());
+                let ident  = &field.ident;
+                if !has_self {
+                    quote!(+ usize::from(!#is_nil(&#ident)))
+                } else if field.is_name {
+                    quote!(+ usize::from(!#is_nil(&self.#ident)))
+                } else {
+                    let i = syn::Index::from(field.pos);
+                    quote!(+ usize::from(!#is_nil(&self.#i)))
+                }
+            });
+            steps.push(quote!((0usize #(#present)*).cbor_len(__ctx777)));
             for field in fields.fields() {
                 if field.attrs.skip() {
                     continue
